@@ -26,6 +26,13 @@ CLAIMS = {
          "inside a macro body the iteration variable is the current element and every other name resolves as outside; a lookup after "
          "a macro is the lookup in the original context. Tied to context.rs/objects.rs by exhaustive operation sequences (length <= 5 "
          "quick, <= 7 thorough) against the real Context API and by nested-macro programs reusing variable and function names."),
+ "C14": ("Theorems: list indexing returns the element in range and null otherwise (negative, past the end, i64 extremes), never an "
+         "error; a map literal with pairwise distinct keys denotes exactly its entries; k in m, m.contains(k), m[k] all answer the one "
+         "predicate present(k, m) that identifies numerically equal int/uint keys, and for identifier-like string keys so do has(m.k) "
+         "and m.k (key texts of non-string keys can never equal an identifier - proved from the decimal printer); size is additive over "
+         "+, concatenation preserves order, x in l iff some element equals x. Tied to objects.rs/functions.rs by all maps with <= 3 keys "
+         "over a mixed 8-key alphabet x 18 query keys x 5 forms (also evaluated as an agreement law on the implementation's own answers), "
+         "all short lists x all indices, byte-offset string indexing and random additive-law cases."),
  "C06": ("Theorems that Eval.eval (a structural Fixpoint transcribing Value::resolve) returns the left operand's outcome "
          "and host-call log alone when && / || are decided by it, evaluates exactly one branch of ?:, and propagates a "
          "left error - for every context and operand expression, hence at every depth and inside macro bodies. Tied to the "
